@@ -1,14 +1,13 @@
 #!/bin/bash
-# try_mutant.sh <patch.diff> <tier> <ID>...   apply to /repo, run checks, revert
+# try_mutant.sh <patch.diff> <tier> <ID>...   run checks against a scratch worktree of /repo HEAD with
+# the patch applied (VERIF_REPO), leaving /repo untouched; evidence/replays go to a scratch VERIF_DIR copy.
 P="$1"; TIER="$2"; shift 2
-cd /repo
-[ -z "$(git status --porcelain)" ] || { echo "/repo not clean"; exit 3; }
-git apply -3 "$P" 2>/dev/null || git apply "$P" || { echo "patch does not apply"; exit 4; }
-git reset -q   # unstage what -3 may have staged
+WT=$(mktemp -d /tmp/try-XXXX); rmdir $WT
+git -C /repo worktree add -q --detach $WT HEAD || exit 3
+trap 'git -C /repo worktree remove --force $WT' EXIT
+( cd $WT && (git apply -3 "$P" 2>/dev/null || git apply "$P") && git reset -q ) || { echo "patch does not apply"; exit 4; }
 for id in "$@"; do
-  out=$(cd /verif && ./check $id $TIER 2>&1); rc=$?
+  out=$(cd /verif && VERIF_OUT=$WT/.verif-out VERIF_REPO=$WT VERIF_NO_RACE=${VERIF_NO_RACE:-} ./check $id $TIER 2>&1); rc=$?
   n=$(echo "$out" | grep -c '^VIOLATION')
   echo "  $id $TIER: exit=$rc violations_lines=$n $(echo "$out" | grep -m1 'sig=' | cut -c1-260)"
 done
-git checkout -q -- . ; git clean -fdq
-[ -z "$(git status --porcelain)" ] || echo "WARNING /repo dirty"
